@@ -70,9 +70,10 @@ def leafOut (g : List Nat × List Phrase) : List Phrase := sortLeaf g.2
       order; nothing for a key never inserted;
     * a fuzzy prefix lookup returns, leaf by leaf, exactly the inserted keys of the same length whose
       every syllable begins with the corresponding partial syllable, each once;
-    * the other lookup methods of the trait agree with it: `lookup_first_n_phrases` returns a prefix of
-      the full result that is all of it or longer than `n` (whole leaves), `lookup_first_phrase` its
-      first element;
+    * the other lookup methods of the trait agree with it: `lookup_first_n_phrases(key, n, strategy)`
+      returns exactly the first `n` phrases of the full result (at most `n`, a prefix, nothing
+      missing — the "first n = prefix of the full result" clause of C09 for this back end),
+      `lookup_first_phrase` its first element;
     * enumeration yields exactly the inserted set, each (key, phrase) once;
     * the bytes conform to the documented format.
     (`deterministic` — equal input, identical bytes — is the functionality of `write`.) -/
@@ -88,9 +89,7 @@ def C11_full : Prop :=
         (∀ k, ValidKey k → inserted es k = none → lookupAll t k .standard = []) ∧
         (∀ q, ValidKey q → ∃ groups, GroupsOf es (fun k => fuzzyMatch k q = true) groups ∧
           lookupAll t q .fuzzyPartialPrefix = groups.flatMap leafOut) ∧
-        (∀ st k n, ValidKey k →
-          (∃ rest, lookupAll t k st = lookupFirstN t k n st ++ rest) ∧
-          (lookupFirstN t k n st = lookupAll t k st ∨ n < (lookupFirstN t k n st).length)) ∧
+        (∀ st k n, ValidKey k → lookupFirstN t k n st = (lookupAll t k st).take n) ∧
         (∀ st k, ValidKey k → lookupFirst t k st = (lookupAll t k st).head?) ∧
         (∃ groups, GroupsOf es (fun _ => True) groups ∧
           entries t = .ok (groups.flatMap fun g => (leafOut g).map fun p => (g.1, p))) ∧
@@ -312,11 +311,12 @@ theorem entries_correct (info : Info) (es : List Entry) (hv : ValidInput info es
 /-! ## stage D: the other two lookup methods of the `Dictionary` trait -/
 
 /-- the real reader's `lookup_first_n_phrases` on a written file: the leaves of the tree nodes the key
-    reaches are appended, one whole leaf at a time, until more than `first` phrases are held -/
+    reaches are appended, one whole leaf at a time, until more than `first` phrases are held; then the
+    vector is truncated to `first` (the F11 fix `result.truncate(first)`) -/
 theorem read_write_first_n (b : TrieCodec.Builder) (hb : b.WF) (hi : ValidInfo b.info) (bytes : Bytes)
     (hw : b.write = some bytes) :
     ∃ t, openTrie bytes = some t ∧ ∀ st key n, ValidKey key →
-      lookupFirstN t key n st = cutoff n [] ((tWalk st key [b.root]).map Item.leafPhrases) ∧
+      lookupFirstN t key n st = (cutoff n [] ((tWalk st key [b.root]).map Item.leafPhrases)).take n ∧
       lookupAll t key st = ((tWalk st key [b.root]).map Item.leafPhrases).flatten := by
   obtain ⟨recs, data, hbuf, _, hopen, hr, hd⟩ := openTrie_write b hi bytes hw
   refine ⟨_, hopen, ?_⟩
@@ -325,44 +325,51 @@ theorem read_write_first_n (b : TrieCodec.Builder) (hb : b.WF) (hi : ValidInfo b
   refine ⟨lookupFirstN_eq_cutoff hl (root_pre b hb) ⟨_, _, rfl⟩ st key hkey n, ?_⟩
   rw [lookupAll_eq_tLookup hl (root_pre b hb) ⟨_, _, rfl⟩ st key hkey, tLookup, List.flatMap_def]
 
-/-- `lookup_first_n_phrases(key, n, strategy)` returns whole leaves: a prefix of
-    `lookup_all_phrases(key, strategy)` that is all of it or holds more than `n` phrases (the trait
-    documents "first N phrases"; `Trie` never cuts inside a leaf and does not truncate) -/
-theorem first_n_whole_leaves (info : Info) (es : List Entry) (hv : ValidInput info es) (bytes : Bytes)
+/-- **first n = prefix of the full result**: `lookup_first_n_phrases(key, n, strategy)` is exactly the
+    first `n` phrases of `lookup_all_phrases(key, strategy)`, for every `n` and both strategies (what
+    the trait documents, and C09's clause for the `Trie` back end).  Before the F11 fix the code
+    returned whole leaves beyond `n`; this theorem replaces the former `first_n_whole_leaves`. -/
+theorem first_n_prefix (info : Info) (es : List Entry) (hv : ValidInput info es) (bytes : Bytes)
     (hw : (TrieCodec.Builder.ofEntries info es).write = some bytes) :
     ∃ t, openTrie bytes = some t ∧ ∀ st k n, ValidKey k →
-      (∃ rest, lookupAll t k st = lookupFirstN t k n st ++ rest) ∧
-      (lookupFirstN t k n st = lookupAll t k st ∨ n < (lookupFirstN t k n st).length) := by
+      lookupFirstN t k n st = (lookupAll t k st).take n := by
   have hwf := WF_ofEntries info es hv.2
   have hi : ValidInfo (TrieCodec.Builder.ofEntries info es).info := by rw [info_ofEntries]; exact hv.1
   obtain ⟨t, h1, h2⟩ := read_write_first_n _ hwf hi bytes hw
   refine ⟨t, h1, ?_⟩
   intro st k n hk
   obtain ⟨e1, e2⟩ := h2 st k n hk
-  rw [e1, e2]
-  constructor
-  · obtain ⟨rest, h⟩ := cutoff_prefix n ((tWalk st k [_]).map Item.leafPhrases) []
-    exact ⟨rest, by simpa using h⟩
-  · simpa using cutoff_all_or_more n ((tWalk st k [_]).map Item.leafPhrases) []
+  rw [e1, e2, cutoff_take, List.nil_append]
 
-/-- an exact `lookup_first_n_phrases` returns the whole leaf of the key whatever `n` is (one thread) -/
+/-- consequences in the usual vocabulary: at most `n` phrases, exactly `min n (all)` of them, and
+    the full result extends it -/
+theorem first_n_length (info : Info) (es : List Entry) (hv : ValidInput info es) (bytes : Bytes)
+    (hw : (TrieCodec.Builder.ofEntries info es).write = some bytes) :
+    ∃ t, openTrie bytes = some t ∧ ∀ st k n, ValidKey k →
+      (lookupFirstN t k n st).length = min n (lookupAll t k st).length ∧
+      (lookupFirstN t k n st).length ≤ n ∧
+      ∃ rest, lookupAll t k st = lookupFirstN t k n st ++ rest := by
+  obtain ⟨t, h1, h2⟩ := first_n_prefix info es hv bytes hw
+  refine ⟨t, h1, ?_⟩
+  intro st k n hk
+  rw [h2 st k n hk]
+  refine ⟨List.length_take, ?_, (lookupAll t k st).drop n, (List.take_append_drop n _).symm⟩
+  rw [List.length_take]
+  exact Nat.min_le_left _ _
+
+/-- an exact `lookup_first_n_phrases` returns the first `n` phrases of the key's leaf in the
+    documented order -/
 theorem first_n_standard (info : Info) (es : List Entry) (hv : ValidInput info es) (bytes : Bytes)
     (hw : (TrieCodec.Builder.ofEntries info es).write = some bytes) :
     ∃ t, openTrie bytes = some t ∧
-      ∀ k n, ValidKey k → lookupFirstN t k n .standard = sortLeaf ((inserted es k).getD []) := by
-  have hwf := WF_ofEntries info es hv.2
-  have hi : ValidInfo (TrieCodec.Builder.ofEntries info es).info := by rw [info_ofEntries]; exact hv.1
-  obtain ⟨t, h1, h2⟩ := read_write_first_n _ hwf hi bytes hw
+      ∀ k n, ValidKey k → lookupFirstN t k n .standard = (sortLeaf ((inserted es k).getD [])).take n := by
+  obtain ⟨t, h1, h2⟩ := first_n_prefix info es hv bytes hw
   obtain ⟨t', h1', h3⟩ := lookup_correct info es hv bytes hw
   have et : t' = t := Option.some.inj (h1'.symm.trans h1)
   rw [et] at h3
   refine ⟨t, h1, ?_⟩
   intro k n hk
-  obtain ⟨e1, e2⟩ := h2 .standard k n hk
-  rw [← h3 k hk, e1, e2]
-  exact cutoff_le_one n (by
-    rw [List.length_map]
-    exact tWalk_standard_le_one k hk 0 _ _ hwf.2)
+  rw [h2 .standard k n hk, h3 k hk]
 
 /-- `lookup_first_phrase` is the first element of `lookup_all_phrases`, for both strategies; for an
     exact lookup: the first phrase of the key's leaf in the documented order, `none` for a key never
@@ -372,20 +379,15 @@ theorem first_phrase_correct (info : Info) (es : List Entry) (hv : ValidInput in
     ∃ t, openTrie bytes = some t ∧
       (∀ st k, ValidKey k → lookupFirst t k st = (lookupAll t k st).head?) ∧
       (∀ k, ValidKey k → lookupFirst t k .standard = (sortLeaf ((inserted es k).getD [])).head?) := by
-  obtain ⟨t, h1, h2⟩ := first_n_whole_leaves info es hv bytes hw
-  obtain ⟨t', h1', h3⟩ := first_n_standard info es hv bytes hw
+  obtain ⟨t, h1, h2⟩ := first_n_prefix info es hv bytes hw
+  obtain ⟨t', h1', h3⟩ := lookup_correct info es hv bytes hw
   have et : t' = t := Option.some.inj (h1'.symm.trans h1)
   rw [et] at h3
-  refine ⟨t, h1, ?_, fun k hk => by rw [lookupFirst, h3 k 1 hk]⟩
-  intro st k hk
-  obtain ⟨⟨rest, hp⟩, hor⟩ := h2 st k 1 hk
-  unfold lookupFirst
-  rcases hor with h | h
-  · rw [h]
-  · rw [hp]
-    cases hf : lookupFirstN t k 1 st with
-    | nil => rw [hf] at h; simp at h
-    | cons a as => rfl
+  have key : ∀ st k, ValidKey k → lookupFirst t k st = (lookupAll t k st).head? := by
+    intro st k hk
+    rw [lookupFirst, h2 st k 1 hk]
+    cases lookupAll t k st <;> rfl
+  exact ⟨t, h1, key, fun k hk => by rw [key .standard k hk, h3 k hk]⟩
 
 /-- `conforms`: the written bytes are a `Document` of trie.asn1 (constants regenerated from the
     file on every run: `format_constants`) whose index is the BFS layout of a tree -/
@@ -404,7 +406,7 @@ theorem reader_on_conforming_file (bytes : Bytes) (hc : Conforms bytes) :
       openTrie bytes = some t ∧ about t = info ∧
       (∀ st k, ValidKey k → lookupAll t k st = tLookup st k (.node 0 l sub)) ∧
       (∀ k, ValidKey k → lookupAll t k .standard = sortLeaf ((findNode k (l, sub)).getD [])) ∧
-      (∀ k n, ValidKey k → lookupFirstN t k n .standard = lookupAll t k .standard) ∧
+      (∀ st k n, ValidKey k → lookupFirstN t k n st = (lookupAll t k st).take n) ∧
       ∃ groups : List (List Nat × List Phrase),
         (groups.map (·.1)).Nodup ∧ (∀ k ps, (k, ps) ∈ groups ↔ findNode k (l, sub) = some ps) ∧
         entries t = .ok (groups.flatMap fun g => (leafOut g).map fun p => (g.1, p)) := by
@@ -427,10 +429,8 @@ theorem reader_on_conforming_file (bytes : Bytes) (hc : Conforms bytes) :
   · intro k hk
     rw [hall .standard k hk, tLookup_standard k hk 0 l sub hpre.2.2]
     cases findNode k (l, sub) <;> rfl
-  · intro k n hk
-    rw [lookupFirstN_eq_cutoff hlaid hpre ⟨_, _, rfl⟩ .standard k hk n, hall .standard k hk, tLookup,
-      List.flatMap_def]
-    exact cutoff_le_one n (by rw [List.length_map]; exact tWalk_standard_le_one k hk 0 l sub hpre.2.2)
+  · intro st k n hk
+    exact lookupFirstN_eq_take hlaid hpre ⟨_, _, rfl⟩ st k hk n
   · obtain ⟨groups, hperm, hent⟩ := entries_laid (info := info) hlaid hpre hcount
     refine ⟨groups, ?_, ?_, hent⟩
     · exact (hperm.map (·.1)).nodup_iff.mpr (nodeGroups_keys_nodup hpre.2.2)
@@ -456,7 +456,7 @@ theorem C11 : C11_full := by
   obtain ⟨t1, ho1, hl⟩ := lookup_correct info es hv bytes hw
   obtain ⟨t2, ho2, hf⟩ := fuzzy_correct info es hv bytes hw
   obtain ⟨t3, ho3, he⟩ := entries_correct info es hv bytes hw
-  obtain ⟨t4, ho4, hn⟩ := first_n_whole_leaves info es hv bytes hw
+  obtain ⟨t4, ho4, hn⟩ := first_n_prefix info es hv bytes hw
   obtain ⟨t5, ho5, hfp, _⟩ := first_phrase_correct info es hv bytes hw
   have e4 : t4 = t := Option.some.inj (ho4.symm.trans hopen)
   have e5 : t5 = t := Option.some.inj (ho5.symm.trans hopen)
@@ -513,10 +513,30 @@ example : fuzzyMatch [10268, 8708] [10240, 8704] = true := by decide
 example : (sampleTrie.map fun t => lookupAll t [10240, 8704] .fuzzyPartialPrefix) =
     some [{ text := [28204, 35430], freq := 100, lastUsed := some 5 }] := by decide
 
--- `lookup_first_n_phrases(…, 0, …)` and `(…, 1, …)` return the whole two-phrase leaf (more than n);
--- `lookup_first_phrase` its head
-example : (sampleTrie.map fun t => (lookupFirstN t [10268] 0 .standard).length) = some 2 := by decide
-example : (sampleTrie.map fun t => lookupFirst t [10268] .standard) = some (some { text := [28204], freq := 9 }) := by decide
+-- `lookup_first_n_phrases(…, n, …)` on the two-phrase leaf: nothing for n = 0, the first phrase for n = 1 (the
+-- truncation cuts inside the leaf: the full result has 2), everything for n = 3; `lookup_first_phrase` its head
+example : (sampleTrie.map fun t => lookupFirstN t [10268] 0 .standard) = some [] := by decide
+example : (sampleTrie.map fun t => lookupFirstN t [10268] 1 .standard) = some [{ text := [28204], freq := 9 }] := by decide
+example : (sampleTrie.map fun t => lookupFirstN t [10268] 3 .standard) =
+    some [{ text := [28204], freq := 9 }, { text := [20874], freq := 70000 }] := by decide
+
+/-- two one-syllable keys beginning with ㄘ (ㄘㄚ, ㄘㄜˋ), two phrases each: a fuzzy lookup of ㄘ has two threads -/
+def sampleTwoLeaves : Option Trie :=
+  ((TrieCodec.Builder.ofEntries {}
+    [([10268], { text := [28204], freq := 1 }), ([10268], { text := [20874], freq := 2 }),
+     ([10249], { text := [25830], freq := 3 }), ([10249], { text := [25831], freq := 4 })]).write).bind openTrie
+
+-- the full fuzzy result: both leaves, 4 phrases; n = 1 stops after the first leaf and cuts inside it; n = 3 takes
+-- both leaves (2 is not > 3, then 4 is) and cuts inside the second one — the loop alone returns 4 phrases (the
+-- behaviour before the F11 fix), the truncation makes it the first 3
+example : (sampleTwoLeaves.map fun t => (lookupAll t [10240] .fuzzyPartialPrefix).map (·.text)) =
+    some [[25830], [25831], [28204], [20874]] := by decide
+example : (sampleTwoLeaves.map fun t => (lookupFirstN t [10240] 1 .fuzzyPartialPrefix).map (·.text)) =
+    some [[25830]] := by decide
+example : (sampleTwoLeaves.map fun t => (lookupFirstN t [10240] 3 .fuzzyPartialPrefix).map (·.text)) =
+    some [[25830], [25831], [28204]] := by decide
+example : (sampleTwoLeaves.map fun t => (collectN t.index t.data 3
+    ((walk t.index .fuzzyPartialPrefix [10240] [viewAt t.index 0]).getD []) []).length) = some 4 := by decide
 
 -- enumeration: three (key, phrase) pairs (the iterator pops each round's results: deepest first)
 example : (sampleTrie.map fun t => (entries t).map fun es => es.map (·.1)) =
